@@ -20,6 +20,9 @@ import (
 	"github.com/yuin/goldmark/text"
 )
 
+// quirksOff disables refQuirk (used only by the self-test of the candidate path).
+var quirksOff = false
+
 var gm = goldmark.New(goldmark.WithRendererOptions(html.WithUnsafe(), html.WithXHTML()))
 
 type refResult struct {
@@ -208,6 +211,9 @@ func specSkipReason(section string, example int) string {
 // and CommonMark 0.31.2 (which pkg/md targets) that the document touches; such
 // documents are compared with the spec corpus only.  "" if none.
 func refQuirk(src string) string {
+	if quirksOff {
+		return ""
+	}
 	// goldmark builds image alt text from Text nodes only: it drops autolinks
 	// and raw HTML inside the description and leaves backslash escapes and
 	// character references undecoded.  The spec (and its reference
